@@ -58,14 +58,18 @@ theorem numeric_feed (numOf : String → Option Int) (vals : List JV) :
 
 /-- The whole histogram clause. -/
 theorem hist_spec (numOf : String → Option Int) (interval : Nat) (vals : List JV)
-    (hI : 0 < interval) (hne : Spec.numerics numOf vals ≠ []) :
+    (hI : 0 < interval) :
     Spec.Hist ((interval : Int) * 1024) (Spec.numerics numOf vals) (histRows numOf interval vals) := by
   have hI' : (0 : Int) < (interval : Int) * 1024 := by omega
-  simp only [histRows, numeric_feed]
+  rw [histRows, if_neg (by omega), numeric_feed]
   generalize (interval : Int) * 1024 = I at hI'
-  generalize Spec.numerics numOf vals = nums at hne
-  match nums, hne with
-  | x :: xs, _ =>
+  generalize Spec.numerics numOf vals = nums
+  match nums with
+  | [] =>
+    -- no numeric value (incl. empty input): no bucket — `if len(fieldValues) == 0 { return }`
+    simp only [histBuckets]
+    exact ⟨by simp, by simp, by simp, by simp, by simp⟩
+  | x :: xs =>
     have hrange : ∀ v ∈ x :: xs, minOf x xs / I * I ≤ v ∧ v ≤ maxOf x xs := fun v hv =>
       ⟨Int.le_trans (Lemmas.start_le I _ hI') (Lemmas.minOf_le x xs v hv), Lemmas.le_maxOf x xs v hv⟩
     simp only [histBuckets]
@@ -110,14 +114,14 @@ theorem hist_spec (numOf : String → Option Int) (interval : Nat) (vals : List 
 
 /-- histogram buckets are aligned to multiples of the interval. -/
 theorem hist_aligned (numOf : String → Option Int) (interval : Nat) (vals : List JV)
-    (hI : 0 < interval) (hne : Spec.numerics numOf vals ≠ []) :
+    (hI : 0 < interval) :
     ∀ p ∈ histRows numOf interval vals, ((interval : Int) * 1024) ∣ p.1 :=
-  (hist_spec numOf interval vals hI hne).aligned
+  (hist_spec numOf interval vals hI).aligned
 
 /-- … cover every numeric value exactly once (each lies in one and only one listed bucket;
     bucket starts are pairwise distinct and each count is the number of values in the bucket). -/
 theorem hist_partition (numOf : String → Option Int) (interval : Nat) (vals : List JV)
-    (hI : 0 < interval) (hne : Spec.numerics numOf vals ≠ []) :
+    (hI : 0 < interval) :
     ((histRows numOf interval vals).map (·.1)).Nodup ∧
     (∀ p ∈ histRows numOf interval vals,
       p.2 = (Spec.numerics numOf vals).countP
@@ -126,14 +130,28 @@ theorem hist_partition (numOf : String → Option Int) (interval : Nat) (vals : 
       ∃ b, (b ∈ (histRows numOf interval vals).map (·.1) ∧ Spec.InBucket ((interval : Int) * 1024) b v) ∧
         ∀ b', (b' ∈ (histRows numOf interval vals).map (·.1) ∧
                 Spec.InBucket ((interval : Int) * 1024) b' v) → b' = b :=
-  let h := hist_spec numOf interval vals hI hne
+  let h := hist_spec numOf interval vals hI
   ⟨h.distinct, h.counts, h.partition⟩
 
 /-- … and sum to the number of numeric values. -/
 theorem hist_sum (numOf : String → Option Int) (interval : Nat) (vals : List JV)
-    (hI : 0 < interval) (hne : Spec.numerics numOf vals ≠ []) :
+    (hI : 0 < interval) :
     ((histRows numOf interval vals).map (·.2)).sum = (Spec.numerics numOf vals).length :=
-  (hist_spec numOf interval vals hI hne).sum
+  (hist_spec numOf interval vals hI).sum
+
+/-- No numeric value (empty input included): no bucket, and nothing to crash on. -/
+theorem hist_no_numeric_no_rows (numOf : String → Option Int) (interval : Nat) (vals : List JV)
+    (h : Spec.numerics numOf vals = []) : histRows numOf interval vals = [] := by
+  unfold histRows
+  split
+  · rfl
+  · rw [numeric_feed, h]; rfl
+
+/-- Interval 0 (the one parameter value the clause cannot be met for: no bucket width): the code
+    returns no bucket at all — `floor(min/0)*0` is NaN and the bucket loop does not run. The
+    histogram clause is stated for `0 < interval`; this is the remaining point, by correspondence. -/
+theorem hist_interval_zero_no_rows (numOf : String → Option Int) (vals : List JV) :
+    histRows numOf 0 vals = [] := by simp [histRows]
 
 /-- field aggregation counts exactly the keys present. -/
 theorem field_counts (vals : List JV) : Spec.FieldExact vals (fieldCounts vals) := by
